@@ -89,7 +89,8 @@ def plan(prop, tier):
         P["exhaustive"] = [("c12_hist", C(MaxBatches=4, MaxSnaps=1, MaxReverts=1, MaxReopens=1), SAFETY, ACTIONS)]
         P["sim"] = [("c12_walk", C(MaxBatches=6, MaxSnaps=1, MaxReverts=2, SimLen=24, MaxReopens=1, MaxFiles=3), 300 if q else 3000, 1),
                     ("c12_walk_app", C(MaxBatches=6, MaxSnaps=1, MaxReverts=2, SimLen=24, MaxReopens=1, Kinds='{"append"}'), 200 if q else 2000, 1)]
-        P["dims"] = {"c12_walk": [{"nkeys": 3}], "c12_walk_app": [{"nkeys": 3}, {"nkeys": 3, "bigVals": True}]}
+        # kids: every batch mirrored into a child collection (collection from Store.OpenCollection; append-only behaviours)
+        P["dims"] = {"c12_walk": [{"nkeys": 3}], "c12_walk_app": [{"nkeys": 3}, {"nkeys": 3, "bigVals": True}, {"nkeys": 3, "kids": True}]}
         P["relevant"] = r"^history\.|^revert\.|^reopen\.|^store\.|^coll\."
         P["rule"] = ("behaviours of MossStore with TakeSnap / Previous walks to every depth, Revert to any footer of the walk, reopen and further rounds; "
                      "the content at every step of the walk and after the revert (store, collection, reopened copy) is compared with TLC's; "
@@ -175,7 +176,8 @@ def classify(rep, prop, relevant, findings, results, behs, d, cfgname):
         for st in r.get("steps", []):
             rep.drift += len(st.get("drift", []))
             for mm in st.get("mismatches", []):
-                if reported or not rx.search(mm["what"]):
+                # (a panic of the library that takes the process down is reported whatever the property)
+                if reported or not (rx.search(mm["what"]) or mm["what"] == "crash.panic"):
                     continue
                 f = vlib.match_finding(findings, prop, mm, {"dims": d})
                 if f:
